@@ -445,12 +445,20 @@ def validate(seed):
 
 
 def jobs(tier, seed):
-    return e2_jobs(CONDITIONS, tier)
+    # plus the floating-point side of the fractional --max-n criterion (engine symx): harness/predicates_fp.py
+    from harness import predicates_fp as FP
+    return e2_jobs(CONDITIONS, tier) + FP.fp_jobs(tier, seed)
 
 
 def run_job(job):
+    if job.get("fn") == "max_n_fp":
+        from harness import predicates_fp as FP
+        return FP.run_fp_job(job)
     return e2_run_job(__name__, job)
 
 
 def replay(cex):
+    if isinstance(cex, dict) and cex.get("kind") == "max_n_fp":
+        from harness import predicates_fp as FP
+        return FP.replay_fp(cex)
     return e2_replay(cex)
